@@ -56,6 +56,16 @@ let rec items toks =
     IFollow (b01 via, ck_breq (ep_of ep) (bytes_of_hex path) false, fl) :: items r
   | _ -> failwith "items"
 
+(* items of a script that also talks to the SSO proxy: "P" = request to the proxy's origin *)
+let rec pitems toks =
+  match toks with
+  | [] -> []
+  | "P" :: dt :: ep :: path :: f :: prompt :: r ->
+    ck_proxy_req (z_of_string dt) (ck_breq (ep_of ep) (bytes_of_hex path) (b01 prompt)) (fault_of f) :: pitems r
+  | "R" :: a :: b :: c :: d :: e :: r -> (match items ["R"; a; b; c; d; e] with [it] -> ck_pitem it :: pitems r | _ -> failwith "pitems")
+  | "W" :: a :: b :: c :: d :: r -> (match items ["W"; a; b; c; d] with [it] -> ck_pitem it :: pitems r | _ -> failwith "pitems")
+  | _ -> failwith "pitems"
+
 let value_of s = if s = "*" then VOpaque else VLit (bytes_of_hex s)
 
 let rec jops toks =
@@ -71,6 +81,7 @@ let rec jops toks =
 let () =
   register "curl" (fun toks -> match toks with [raw] -> print_toks (entry_url (bytes_of_hex raw)) | _ -> print_endline "?bad");
   register "cval" (fun toks -> print_toks (entry_validate (config_of toks)));
+  register "cnames" (fun toks -> print_toks (entry_cookie_names (config_of toks)));
   register "cmatch" (fun toks -> print_toks (entry_match (config_of (take 13 toks)) (bytes_of_hex (List.nth toks 13))));
   register "cret" (fun toks -> match toks with [rc; st] -> print_toks (entry_retry (bopt rc) (z_of_string st)) | _ -> print_endline "?bad");
   register "cscript" (fun toks ->
@@ -79,6 +90,14 @@ let () =
     | https :: host :: hostport :: now0 :: np :: r ->
       let (probes, r') = origins (int_of_string np) r in
       print_toks (entry_script c (b01 https) (bytes_of_hex host) (bytes_of_hex hostport) (z_of_string now0) probes (items r'))
+    | _ -> print_endline "?bad");
+  register "cpscript" (fun toks ->
+    let c = config_of (take 13 toks) in
+    match drop 13 toks with
+    | https :: host :: hostport :: now0 :: phttps :: phost :: phostport :: pings :: np :: r ->
+      let (probes, r') = origins (int_of_string np) r in
+      print_toks (entry_script_px c (b01 https) (bytes_of_hex host) (bytes_of_hex hostport) (z_of_string now0)
+                    (b01 phttps) (bytes_of_hex phost) (bytes_of_hex phostport) (blist pings) probes (pitems r'))
     | _ -> print_endline "?bad");
   register "cjar" (fun toks -> print_toks (entry_jar (jops toks)));
   register "ccnt" (fun toks ->
